@@ -432,7 +432,15 @@ def step (s : St) (w : List String) : St × String :=
     let src : Option (Option (List Byte)) := if what = "term" then some none else (parseHex what).map some
     match src with
     | some src =>
-      (s, encLine "refused" s.est s.win (resName (encodeNull s.codec s.est src)) "refused ; *")
+      -- a window that holds nothing cannot belong to an encoder state that has data in it (finished frames or
+      -- an open message, known from the script): that is an inconsistency (BadArgument), not a request for
+      -- space — a caller that grants space on MissingBuffer and calls again would continue the frame in a window
+      -- that lacks its beginning.  With nothing encoded yet both refusals are acceptable.
+      let used := !s.wire.isEmpty ∨ !s.cur.isEmpty ∨ !s.sbytes.isEmpty
+      let alts := if used then "refused ret=BadArgument ; *"
+        else "refused ret=MissingBuffer ; * || refused ret=BadArgument ; *"
+      let rn := resName (encodeNull s.codec s.est src)
+      (s, encLine s!"refused ret={rn}" s.est s.win rn alts)
     | none => (s, "bad-op")
   | ["enc", "check"] =>
     -- decode the last finished frame (model window content) with the reference decoder
